@@ -41,6 +41,10 @@ func loadEnvInternal(env map[string]string, prefix string, prv reflect.Value) er
 				return fmt.Errorf("%s: %w", prefix, err)
 			}
 		} else if envHasAtLeastAKeyWithPrefix(env, prefix+"_") {
+			if prv.IsNil() {
+				prv.Set(reflect.New(rt))
+				i = prv.Interface().(Unmarshaler)
+			}
 			err := i.UnmarshalEnv(prefix, "")
 			if err != nil {
 				return fmt.Errorf("%s: %w", prefix, err)
